@@ -744,21 +744,25 @@ def split_out(out):
     return res
 
 
-def run_c(cbin, hists, timeout, max_crashes=12):
-    """Run histories through the C driver.  Returns list of dict(lines=[...], crash=None|str)."""
+def run_c(cbin, hists, timeout=None, max_crashes=12, chunk=150):
+    """Run histories through the C driver (in chunks, so that a hang costs one short timeout).
+    Returns list of dict(lines=[...], crash=None|str[, skipped=True])."""
     results = [None] * len(hists)
     start = 0
     crashes = 0
     env = {"ASAN_OPTIONS": "detect_leaks=0:abort_on_error=0:allocator_may_return_null=1",
            "UBSAN_OPTIONS": "print_stacktrace=0"}
     while start < len(hists):
-        text = "\n".join("\n".join(h) for h in hists[start:]) + "\n"
-        rc, out, errt = vlib.sh2([str(cbin)], stdin=text, timeout=timeout, env=env)
+        stop = min(start + chunk, len(hists))
+        text = "\n".join("\n".join(h) for h in hists[start:stop]) + "\n"
+        tmo = timeout or (8 + 0.05 * (stop - start))
+        rc, out, errt = vlib.sh2([str(cbin)], stdin=text, timeout=tmo, env=env)
         parts = split_out(out)
-        if rc == 0 and len(parts) == len(hists) - start:
+        if rc == 0 and len(parts) == stop - start:
             for i, p in enumerate(parts):
                 results[start + i] = {"lines": p, "crash": None}
-            break
+            start = stop
+            continue
         # histories before the last announced one completed
         k = max(len(parts) - 1, 0)
         for i in range(k):
@@ -766,11 +770,10 @@ def run_c(cbin, hists, timeout, max_crashes=12):
         bad = start + k
         env2 = dict(env)
         env2["C04_LINEBUF"] = "1"
-        rc2, out2, err2 = vlib.sh2([str(cbin)], stdin="\n".join(hists[bad]) + "\n", timeout=10, env=env2)
+        rc2, out2, err2 = vlib.sh2([str(cbin)], stdin="\n".join(hists[bad]) + "\n", timeout=3, env=env2)
         p2 = split_out(out2)
-        why = "hang (no result within 10 s)" if rc2 == 124 else sanitizer_summary(err2) or ("exit status %d" % rc2)
+        why = "hang (no result within 3 s)" if rc2 == 124 else sanitizer_summary(err2) or ("exit status %d" % rc2)
         if rc2 == 0:
-            # not reproducible alone (state leaked between histories?) — treat as crash of the batch
             why = "driver failed in batch (rc=%d) but not alone: %s" % (rc, sanitizer_summary(errt) or errt[-300:])
         results[bad] = {"lines": p2[0] if p2 else [], "crash": why}
         crashes += 1
@@ -801,15 +804,13 @@ def run_model(mbin, hists, timeout):
 
 def c_fails(cbin, hist):
     """Does this single history violate the property on the implementation?  -> None | (op_index, message)"""
-    r = run_c(cbin, [hist], timeout=20, max_crashes=1)[0]
+    r = run_c(cbin, [hist], timeout=3, max_crashes=1)[0]
     v = check_history(hist, r["lines"])
-    if v is not None:
-        return v
-    if r["crash"]:
+    if r["crash"] and (v is None or v[0] > len(r["lines"])):
         nops = len([x for x in hist if not x.startswith("H ")])
         idx = min(len(r["lines"]), nops - 1) + 1
         return (idx, "implementation aborted: " + r["crash"])
-    return None
+    return v
 
 
 def shrink(cbin, hist, budget=250):
@@ -928,7 +929,7 @@ def report_failure(ctx, cbin, hist, origin, reported):
     d.mkdir(parents=True, exist_ok=True)
     casef = d / ("%s_%d_%s.case" % (ctx.tier, ctx.seed, re.sub(r"\W", "_", key)))
     casef.write_text("\n".join(small) + "\n")
-    r = run_c(cbin, [small], timeout=20, max_crashes=1)[0]
+    r = run_c(cbin, [small], timeout=3, max_crashes=1)[0]
     ctx.report(key=key, what="%s: %s" % (key, msg),
                replay={"origin": origin, "case_file": str(casef), "history": small, "failing_line": small[idx] if idx < len(small) else None,
                        "message": msg, "implementation_output": r["lines"][-6:], "crash": r["crash"],
@@ -953,7 +954,7 @@ def run(ctx):
             nops = r.choice([8, 15, 30, 30, 60, 60, 120])
             hists.append(gen_history(r, nops, faulty=(r.random() < 0.15)))
     t0 = time.time()
-    cres = run_c(cbin, hists, timeout=240 if quick else 900)
+    cres = run_c(cbin, hists)
     t1 = time.time()
     mres = run_model(mbin, hists, timeout=240 if quick else 900)
     t2 = time.time()
@@ -1031,7 +1032,7 @@ def run(ctx):
         # the tie broke but no history violated the property: look further with fresh histories (oracle only)
         r = random.Random(ctx.subseed("search"))
         fresh = [gen_history(r, r.choice([15, 30, 60, 120]), faulty=(r.random() < 0.15)) for _ in range(1500 if quick else 6000)]
-        fres = run_c(cbin, fresh, timeout=240)
+        fres = run_c(cbin, fresh)
         for hi, h in enumerate(fresh):
             c = fres[hi]
             if c.get("skipped"):
@@ -1083,7 +1084,7 @@ def replay(ctx, path):
     else:
         hist = [ln for ln in p.read_text().splitlines() if ln.strip() and not ln.startswith("#")]
     cbin = ctx.cc("drv", [H / "drv.c"], repo_srcs=["vec.c", "buf.c", "a.c"], mode="asan")
-    r = run_c(cbin, [hist], timeout=20, max_crashes=1)[0]
+    r = run_c(cbin, [hist], timeout=3, max_crashes=1)[0]
     for a, b in zip(hist[1:], r["lines"]):
         print("  %-40s -> %s" % (a[:40], b[:160]))
     v = c_fails(cbin, hist)
